@@ -65,7 +65,8 @@ Shape(bi, hi, e, k) ==
      hexUpper |-> (k % 2 = 0), chunkExt |-> (b.framing = "chunked" /\ k % 3 = 0),
      trailers |-> IF b.framing = "chunked" /\ k % 4 = 1 THEN <<T("X-T", "x-t", "tv")>>
                   ELSE IF b.framing = "chunked" /\ k % 4 = 3 THEN <<TF("X-T", "x-t", "t1", "t2"), T("X-U", "x-u", "uv")>> ELSE << >>,
-     expect100 |-> e, close |-> FALSE, clStyle |-> Styles[(k % 4) + 1], bodyLit |-> "", raw |-> ""]
+     expect100 |-> e, close |-> FALSE, clStyle |-> Styles[(k % 4) + 1], bodyLit |-> "", raw |-> "",
+     noAnnounce |-> (k % 8 \in {5, 7})]      \* half of the shapes with trailers do not announce them
 
 ShapeIdx == {<<bi, hi, e>> : bi \in 1 .. Len(Bodies), hi \in 1 .. Len(HeaderSets), e \in BOOLEAN}
 ValidIdx == SetToSeq({x \in ShapeIdx : x[3] => Bodies[x[1]].framing # "none"})
